@@ -513,31 +513,203 @@ def r5(ctx):
                 key=ab.full + ' | zfm scale')
 
 
+_TABLES = ('_z_abs', '_z_mod', '_kfint')
+
+
+def _counter_paths(fn, step, z):
+    """Abstract execution of get_power_sweep (loop-free) over the finite
+    domain (step given?) x (z given?), by the checker's own evaluator.
+    Values: ('none',) | ('given', name) | ('ctr', n) = the value of
+    self._step after n increments | ('tab', table, index value) | None =
+    unknown.  A test that cannot be decided splits the path.  Returns
+    {(step given, z given): [path, ...]}, a path being {'incs': [stmt],
+    'reads': [(table, index value, stmt)], 'bad': [stmt]}; None if a
+    statement kind is not modelled."""
+    NONE = ('none',)
+
+    class Unsupported(Exception):
+        pass
+
+    def is_ctr(e):
+        return isinstance(e, ast.Attribute) and e.attr == '_step'
+
+    def value(e, st_):
+        env, ver = st_['env'], st_['ver']
+        if isinstance(e, ast.Constant) and e.value is None:
+            return NONE
+        if isinstance(e, ast.Name):
+            return env.get(e.id)
+        if is_ctr(e):
+            return ('ctr', ver) if src(e) == 'self._step' else None
+        if isinstance(e, ast.Subscript) and src(e.value) in [
+                'self.' + t for t in _TABLES]:
+            return ('tab', e.value.attr, value(e.slice, st_))
+        return None
+
+    def note_reads(e, st_, stmt):
+        for x in ast.walk(e):
+            if isinstance(x, ast.Subscript) and isinstance(
+                    x.ctx, ast.Load) and src(x.value) in [
+                        'self.' + t for t in _TABLES]:
+                st_['reads'].append((x.value.attr, value(x.slice, st_),
+                                     stmt))
+
+    def truth(e, st_):
+        if isinstance(e, ast.BoolOp):
+            vs = [truth(x, st_) for x in e.values]
+            if isinstance(e.op, ast.And):
+                if any(v is False for v in vs):
+                    return False
+                return True if all(v is True for v in vs) else None
+            if any(v is True for v in vs):
+                return True
+            return False if all(v is False for v in vs) else None
+        if isinstance(e, ast.UnaryOp) and isinstance(e.op, ast.Not):
+            v = truth(e.operand, st_)
+            return None if v is None else not v
+        if isinstance(e, ast.Compare) and len(e.ops) == 1 and isinstance(
+                e.ops[0], (ast.Is, ast.IsNot)):
+            a, b = value(e.left, st_), value(e.comparators[0], st_)
+            if b != NONE:
+                a, b = b, a
+            if b != NONE or a is None or a[0] == 'tab':
+                return None
+            res = a == NONE
+            return res if isinstance(e.ops[0], ast.Is) else not res
+        if isinstance(e, ast.Name) and st_['env'].get(e.id) == NONE:
+            return False
+        return None
+
+    def fork(st_):
+        return {'env': dict(st_['env']), 'ver': st_['ver'],
+                'incs': list(st_['incs']), 'reads': list(st_['reads']),
+                'bad': list(st_['bad'])}
+
+    def run(stmts, states):
+        """states -> (states falling through, finished states)"""
+        done = []
+        for st in stmts:
+            if not states:
+                break
+            if len(states) + len(done) > 256:
+                raise Unsupported()
+            if isinstance(st, ast.Expr) and isinstance(st.value,
+                                                       ast.Constant):
+                continue
+            if isinstance(st, ast.If):
+                nxt = []
+                for s_ in states:
+                    note_reads(st.test, s_, st)
+                    v = truth(st.test, s_)
+                    for pol, blk in ((True, st.body), (False, st.orelse)):
+                        if v is None or v == pol:
+                            out, fin = run(blk, [fork(s_)])
+                            nxt += out
+                            done += fin
+                states = nxt
+                continue
+            if isinstance(st, (ast.Return, ast.Raise)):
+                for s_ in states:
+                    if getattr(st, 'value', None) is not None:
+                        note_reads(st.value, s_, st)
+                done += states
+                states = []
+                continue
+            if isinstance(st, (ast.Assign, ast.AugAssign, ast.Expr)):
+                for s_ in states:
+                    note_reads(st.value, s_, st)
+                    tgs = st.targets if isinstance(st, ast.Assign) else (
+                        [st.target] if isinstance(st, ast.AugAssign) else [])
+                    for t in tgs:
+                        if is_ctr(t):
+                            if isinstance(st, ast.AugAssign) and isinstance(
+                                    st.op, ast.Add) and const(st.value) == 1 \
+                                    and src(t) == 'self._step':
+                                s_['incs'].append(st)
+                                s_['ver'] += 1
+                            else:
+                                s_['bad'].append(st)
+                        elif isinstance(t, ast.Name):
+                            s_['env'][t.id] = value(st.value, s_) if \
+                                isinstance(st, ast.Assign) else None
+                        elif isinstance(t, (ast.Tuple, ast.List)):
+                            for x in ast.walk(t):
+                                if isinstance(x, ast.Name):
+                                    s_['env'][x.id] = None
+                                elif is_ctr(x):
+                                    s_['bad'].append(st)
+                continue
+            if isinstance(st, ast.Pass):
+                continue
+            raise Unsupported()
+        return states, done
+
+    out = {}
+    try:
+        for sg in (False, True):
+            for zg in (False, True):
+                init = {'env': {step: ('given', step) if sg else NONE,
+                                z: ('given', z) if zg else NONE},
+                        'ver': 0, 'incs': [], 'reads': [], 'bad': []}
+                rest, fin = run(fn.body, [init])
+                out[(sg, zg)] = rest + fin
+    except Unsupported:
+        return None
+    return out
+
+
 def r6(ctx):
     repo = ctx.repo
     fi = repo.func('power', 'AssemblyPower.get_power_sweep')
-    g = cfg_of(fi)
     incs = [st for st in walk_no_nested(fi.node) if isinstance(st,
                                                                ast.AugAssign)
             and src(st.target) == 'self._step']
     ok = len(incs) == 1 and isinstance(incs[0].op, ast.Add) and \
-        const(incs[0].value) == 1
+        const(incs[0].value) == 1 and 'step' in fi.params and \
+        'z' in fi.params
+    why = ''
     if ok:
-        gs = [(src(t), p) for t, p in U.guards(incs[0])]
-        ok = gs == [('z is not None', False), ('step is not None', False)]
-        blk = parent(incs[0])
-        sib = blk.orelse if isinstance(blk, ast.If) else []
-        reads = [src(s.value) for s in sib if isinstance(s, ast.Assign)]
-        ok = ok and sorted(reads) == sorted([
-            'self._z_abs[self._step]', 'self._z_mod[self._step]',
-            'self._kfint[self._step]'])
-        # increment after the reads
-        ok = ok and all(s.lineno < incs[0].lineno for s in sib
-                        if isinstance(s, ast.Assign))
+        # decided on the executions of the function over (step given?) x
+        # (z given?): the counter advances exactly once, and only when
+        # neither is given; on that path each of the three precomputed
+        # tables is read, and every read of them uses the value the counter
+        # had before it advanced (directly or through a local that captured
+        # it)
+        paths = _counter_paths(fi.node, 'step', 'z')
+        if paths is None:
+            ok = False
+            why = ' (statement form not modelled)'
+        else:
+            for (sg, zg), ps in sorted(paths.items()):
+                for p_ in ps:
+                    if p_['bad']:
+                        ok = False
+                        why = ' (other store to the counter)'
+                    if sg or zg:
+                        if p_['incs']:
+                            ok = False
+                            why = ' (counter advanced although %s is given)' \
+                                % ('step' if sg else 'z')
+                        continue
+                    reads = sorted((t, v) for t, v, _s in p_['reads'])
+                    if len(p_['incs']) != 1:
+                        ok = False
+                        why = ' (counter advanced %d times without step ' \
+                            'and z)' % len(p_['incs'])
+                    elif reads != sorted((t, ('ctr', 0)) for t in _TABLES):
+                        ok = False
+                        why = ' (tables read on the counter path: %s)' % [
+                            '%s[%s]' % (t, 'counter before advancing'
+                                        if v == ('ctr', 0) else
+                                        'counter after advancing'
+                                        if v and v[0] == 'ctr' else
+                                        'other') for t, v in reads]
+                if not ps:
+                    ok = False
     ctx.require(ok, 'C03.R6', fi, incs[0] if incs else fi.node,
                 'the counter branch must read the three precomputed tables at '
                 'self._step and then advance the counter by one, on that '
-                'branch only', key=fi.full + ' | counter branch')
+                'branch only' + why, key=fi.full + ' | counter branch')
     # other writers of _step
     writers = []
     for f in repo.all_funcs():
